@@ -82,6 +82,25 @@ class Run:
         self.assumptions = []
         self.extra = {}
         self.exhaustive = None
+        self.linecov_dir = None
+        if rule and "VERIF_LINECOV_DIR" not in os.environ:
+            self.start_linecov()  # the parent process of a check (shard workers pass an empty rule)
+
+    def start_linecov(self):
+        """Parent check only: ask every child process of this run to record which lines of tensora
+        it executes (verif/linecov.py); finish() turns the union into anchor-line coverage."""
+        if os.environ.get("VERIF_NO_LINECOV"):
+            return
+        d = os.path.join(WORK_DIR, f"linecov-{os.getpid()}")
+        os.makedirs(d, exist_ok=True)
+        self.linecov_dir = d
+        os.environ["VERIF_LINECOV_DIR"] = d
+        try:
+            from . import linecov
+
+            linecov.start_from_env()
+        except Exception:
+            pass
 
     # ---- recording
     def count(self, name, n=1):
@@ -196,6 +215,20 @@ class Run:
         coverage.update(jsonable(self.extra))
         if coverage_extra:
             coverage.update(jsonable(coverage_extra))
+        if self.linecov_dir:
+            try:
+                from . import linecov
+
+                hits, n_dumps = linecov.collect(self.linecov_dir)
+                for fn, ls in linecov.snapshot().items():
+                    hits.setdefault(fn, set()).update(ls)
+                coverage["anchor_line_coverage"] = linecov.report(hits, anchor_files(self.pid))
+                coverage["anchor_line_coverage"]["processes_reporting"] = n_dumps + 1
+                coverage["tensora_lines_reached_all_files"] = sum(len(v) for v in hits.values())
+            except Exception as e:  # evidence only; never a verdict
+                coverage["anchor_line_coverage"] = {"error": repr(e)}
+            rm_tree(self.linecov_dir)
+            os.environ.pop("VERIF_LINECOV_DIR", None)
         if self.level == "translation_validation":
             coverage.setdefault("programs", int(self.counters.get("programs", self.evaluations)))
             coverage.setdefault("disagreements_checked", int(self.counters.get("comparisons", self.evaluations)))
@@ -229,6 +262,17 @@ class Run:
         print("RESULT held on what was observed: " + summary)
         sys.stdout.flush()
         return EXIT_HELD
+
+
+def anchor_files(pid):
+    try:
+        for line in open(os.path.join(ROOT, "properties.jsonl")):
+            p = json.loads(line)
+            if p.get("id") == pid:
+                return list(p.get("anchors", {}).get("files", []))
+    except (OSError, ValueError):
+        pass
+    return []
 
 
 def note_current(obj):
